@@ -575,11 +575,18 @@ theorem step_ok (s : St) (a : Acc) (seen : List Nat) (op : Op) (h : Rel s a seen
             have hsub : ∀ (g : Nat × Nat → Nat),
                 ((s.tagMap.filter (fun p => p.1 ≠ tag)).map g).Sublist (s.tagMap.map g) :=
               fun g => List.Sublist.map g List.filter_sublist
+            -- the answered request's frame leaves the send queue: the queue only shrinks
+            have hqsub : ∀ (tm : List (Nat × Nat)),
+                (qIds ({ s with rl := .hdr, tagMap := tm, sendQ := s.sendQ.filter (fun it => it ≠ Item.req tag id) } : St)).Sublist
+                  (qIds s) := by
+              intro tm
+              simp only [qIds, qItems]
+              exact List.Sublist.filterMap _ (List.Sublist.append (List.Sublist.refl _) List.filter_sublist)
             refine ⟨?_, ?_, ?_, ?_, ?_, ?_, ?_, ?_, hinv'⟩
             · simp [specStep, obsOf, hset, nextAcc, h.owed, her]
             · simp [specStep, obsOf, hset, nextAcc]
             · intro j hj
-              have hj' : j ∈ qIds s := by simpa [qIds, qItems] using hj
+              have hj' : j ∈ qIds s := (hqsub _).subset hj
               simp only [specStep, obsOf, hset, nextAcc, nextUnsent, List.any_nil, Bool.not_false]
               simpa using h.unsent j hj'
             · intro j hj
@@ -587,10 +594,8 @@ theorem step_ok (s : St) (a : Acc) (seen : List Nat) (op : Op) (h : Rel s a seen
               simp only [reduceCtorEq, if_false] at hj
               exact h.seenO j (List.mem_of_mem_erase hj)
             · intro j hj
-              exact h.seenQ j (by simpa [qIds, qItems] using hj)
-            · have : qIds ({ s with rl := .hdr, tagMap := s.tagMap.filter (fun p => p.1 ≠ tag) } : St) = qIds s := by
-                simp [qIds, qItems]
-              rw [this]; exact h.qnodup
+              exact h.seenQ j ((hqsub _).subset hj)
+            · exact List.Nodup.sublist (hqsub _) h.qnodup
             · exact List.Nodup.sublist (hsub _) h.tags
             · exact List.Nodup.sublist (hsub _) h.ids
   | pingDue =>
